@@ -1105,3 +1105,150 @@ theorem blDecode_allocs (bs : Bytes) (hb : IsBytes bs) :
       · exact Or.inr (Or.inl h1)
       · exact Or.inr (Or.inr h1)
 end JM
+
+namespace JlsH
+open PC JM
+
+/-! near-lossless JPEG-LS: allocations up to the start of the scan -/
+
+theorem nsof55_allocs {st st' : St} {data : Bytes} :
+    (nsof55 st data = .cont st' → st'.allocs = st.allocs) ∧
+    (∀ o, nsof55 st data = .stop st' o → st'.allocs = st.allocs) := by
+  unfold nsof55
+  split
+  · exact ⟨fun h => (by cases h), fun o h => (by injection h with h1 _; subst h1; rfl)⟩
+  · exact ⟨fun h => (by injection h with h1; subst h1; rfl), fun o h => (by cases h)⟩
+
+theorem nlse_allocs {st st' : St} {data : Bytes} :
+    (nlse st data = .cont st' → st'.allocs = st.allocs) ∧
+    (∀ o, nlse st data = .stop st' o → st'.allocs = st.allocs) := by
+  unfold nlse
+  split
+  · exact ⟨fun h => (by cases h), fun o h => (by injection h with h1 _; subst h1; rfl)⟩
+  · split
+    · exact ⟨fun h => (by injection h with h1; subst h1; rfl), fun o h => (by cases h)⟩
+    · exact ⟨fun h => (by injection h with h1; subst h1; rfl), fun o h => (by cases h)⟩
+
+/-- what the near-lossless parseSOS leaves behind: nothing new on an error, context table + scan
+    buffer + sample buffer of the frame header in force when the scan starts -/
+theorem nsos_allocs {N : Nat} {st st' : St} {data : Bytes} {u : Nat} {o : Res} (hu : u ≤ N)
+    (ha : ∀ a ∈ st.allocs, Small N a) (h : nsos st data u = .stop st' o) :
+    ∀ a ∈ st'.allocs, Small N a ∨ a ≤ 8 * (st'.width * st'.height * st'.comps) := by
+  unfold nsos at h
+  split at h
+  · simp only at h
+    split at h
+    · injection h with h1 _; subst h1; exact fun a h' => Or.inl (ha a h')
+    · injection h with h1 _; subst h1
+      intro a h'
+      simp only [scanAllocs] at h'
+      rcases List.mem_append.mp h' with h' | h'
+      · rcases List.mem_append.mp h' with h' | h'
+        · exact Or.inl (ha a h')
+        · simp at h'; subst h'; exact Or.inl (ctxAlloc_small N)
+      · simp at h'
+        rcases h' with h' | h'
+        · subst h'; left; left; exact hu
+        · subst h'; right; exact Nat.le_refl _
+  · injection h with h1 _; subst h1; exact fun a h' => Or.inl (ha a h')
+
+theorem nstep_more_good {N : Nat} {st st' : St} {bs r : Bytes} (hg : Good N st bs)
+    (h : nstep st bs = .more st' r) : Good N st' r := by
+  obtain ⟨hb, hl, ha⟩ := hg
+  unfold nstep at h
+  split at h
+  · cases h
+  · rename_i m rest hm
+    have hrb := readMarker_isBytes hb hm
+    have hrl := readMarker_progress hm
+    try simp only at h
+    split at h
+    · obtain ⟨pl, hr, hh⟩ := segTurn_more' h
+      have hpl := readSegment_progress hr
+      refine ⟨readSegment_isBytes hrb hr, by omega, ?_⟩
+      rw [nsof55_allocs.1 hh]
+      exact mem_append_small ha (small_list _ (by intro x hx; simp at hx; omega))
+    · split at h
+      · obtain ⟨pl, hr, hh⟩ := segTurn_more' h
+        have hpl := readSegment_progress hr
+        refine ⟨readSegment_isBytes hrb hr, by omega, ?_⟩
+        rw [nlse_allocs.1 hh]
+        exact mem_append_small ha (small_list _ (by intro x hx; simp at hx; omega))
+      · split at h
+        · obtain ⟨pl, hr, hh⟩ := segTurn_more' h
+          exact absurd hh (nsos_not_cont _ _ _ _)
+        · split at h
+          · cases h
+          · split at h
+            · obtain ⟨pl, hr, hh⟩ := segTurn_more' h
+              have hpl := readSegment_progress hr
+              try simp only at hh
+              injection hh with hh; subst hh
+              exact ⟨readSegment_isBytes hrb hr, by omega,
+                mem_append_small ha (small_list _ (by intro x hx; simp at hx; omega))⟩
+            · injection h with h1 h2; subst h1; subst h2
+              exact ⟨hrb, by omega, ha⟩
+
+theorem nstep_done_final {N : Nat} {st st' : St} {bs : Bytes} {o : Res} (hg : Good N st bs)
+    (h : nstep st bs = .done st' o) : Final N (st', o) := by
+  obtain ⟨hb, hl, ha⟩ := hg
+  unfold nstep at h
+  split at h
+  · injection h with h1 h2; subst h1; exact small_final ha _
+  · rename_i m rest hm
+    have hrb := readMarker_isBytes hb hm
+    have hrl := readMarker_progress hm
+    have hfail : ∀ a ∈ st.allocs ++ [readSegmentAlloc rest], Small N a :=
+      mem_append_small ha (by intro a h'; simp at h'; subst h'; right; exact readSegmentAlloc_le hrb)
+    try simp only at h
+    split at h
+    · rcases segTurn_done' h with ⟨h1, _⟩ | ⟨pl, rest2, hr, hh⟩
+      · subst h1; exact small_final hfail _
+      · have hpl := readSegment_progress hr
+        apply small_final
+        rw [nsof55_allocs.2 _ hh]
+        exact mem_append_small ha (small_list _ (by intro x hx; simp at hx; omega))
+    · split at h
+      · rcases segTurn_done' h with ⟨h1, _⟩ | ⟨pl, rest2, hr, hh⟩
+        · subst h1; exact small_final hfail _
+        · have hpl := readSegment_progress hr
+          apply small_final
+          rw [nlse_allocs.2 _ hh]
+          exact mem_append_small ha (small_list _ (by intro x hx; simp at hx; omega))
+      · split at h
+        · rcases segTurn_done' h with ⟨h1, _⟩ | ⟨pl, rest2, hr, hh⟩
+          · subst h1; exact small_final hfail _
+          · have hpl := readSegment_progress hr
+            have hr2 := (readSegment_progress hr).1
+            exact nsos_allocs (N := N) (by omega)
+              (mem_append_small ha (small_list _ (by intro x hx; simp at hx; omega))) hh
+        · split at h
+          · injection h with h1 _; subst h1; exact small_final ha _
+          · split at h
+            · rcases segTurn_done' h with ⟨h1, _⟩ | ⟨pl, rest2, hr, hh⟩
+              · subst h1; exact small_final hfail _
+              · cases hh
+            · cases h
+
+/-- C09, JPEG-LS near-lossless: every allocation up to the start of the scan is at most the input length,
+    or 65533, or the sample buffer 8·w·h·comps of the frame header in force at the scan -/
+theorem nheader_allocs (bs : Bytes) (hb : IsBytes bs) :
+    ∀ a ∈ (nheader bs).1.allocs, a ≤ bs.length ∨ a ≤ 65533 ∨
+      a ≤ 8 * ((nheader bs).1.width * (nheader bs).1.height * (nheader bs).1.comps) := by
+  unfold nheader
+  split
+  · simp
+  · rename_i m rest hm
+    split
+    · simp
+    · have hl := readMarker_progress hm
+      have h := run_inv nstep nstep_lt (Good bs.length) (Final bs.length)
+        (fun st b st' r hi hs => nstep_more_good hi hs)
+        (fun st b st' o hi hs => nstep_done_final hi hs)
+        {} rest ⟨readMarker_isBytes hb hm, by omega, by intro a h; cases h⟩
+      intro a ha
+      rcases h a ha with (h1 | h1) | h1
+      · exact Or.inl h1
+      · exact Or.inr (Or.inl h1)
+      · exact Or.inr (Or.inr h1)
+end JlsH
